@@ -14,7 +14,11 @@ PROPS["C16"] = dict(
          "valid items with one truncation / bit flip / extreme byte / extended prefix / deletion / append / prefix +-3. "
          "Large records (compact case form: hex head + n bytes of a seeded fill stream): enumerated - every body length within 9 "
          "of 2^k, k = 8..18 (thorough ..22), complete, cut short by one byte, followed by 3 more bytes, with an over-long prefix "
-         "and with a prefix that promises one byte more; rapid grammar - one case in twelve has a body of 2^k-9..2^k+9, k = "
+         "and with a prefix that promises one byte more; the same five shapes for every body of a whole number of blocks and "
+         "one byte less / more - k*2^m -1..+1 for the block sizes 2^12, 2^16, 2^20 and k = 1..4 (thorough 1..8), i.e. bodies of "
+         "up to 4 MiB (8 MiB) in the quick tier too, random up to their last byte, so that a result which is not the whole body (newBuf=true: a copy "
+         "of all of it) is not a copy of any range of the input (classes complete_record_body_whole_number_of_2^N_byte_blocks, "
+         "complete_record_body_ge_1MiB); rapid grammar - one case in twelve has a body of 2^k-9..2^k+9, k = "
          "9..18, or any length 256..2^18, behind its exact length (minimal or over-long) or a grammar "
          "prefix, complete, cut short by 1..20 bytes or followed by 1..20 more (classes input_ge_64KiB, "
          "complete_record_body_gt_64KiB ...). "
@@ -87,8 +91,8 @@ LEVEL_TEXT["C16"] = (
     "Fuzzing of the decoders' whole input space with a totality oracle (no panic, consumed length and returned range inside "
     "the input, zero consumed on error): every byte string up to length 2, every string up to length 10 over the "
     "extreme group bytes (length prefixes made of all-ones / all-zero groups, including 2^63-1 and 2^64-1), a "
-    "grammar of hostile length prefixes with short bodies and with records of up to 256 KiB (enumerated: thorough up to "
-    "4 MiB) around every power of two, mutated valid encodings, the same inputs decoded by up to 8 goroutines at once, runs of 1 to 64 MiB of continuation "
+    "grammar of hostile length prefixes with short bodies and with records of up to 256 KiB (enumerated: up to 4 MiB, thorough "
+    "8 MiB) around every power of two and around the small multiples of 4 KiB, 64 KiB and 1 MiB, mutated valid encodings, the same inputs decoded by up to 8 goroutines at once, runs of 1 to 64 MiB of continuation "
     "bytes, small valid inputs as the very first concurrent calls of a few hundred fresh processes and, in the thorough tier, "
     "native go fuzzing from the hostile seeds. No counterexample among the inputs counted in the evidence; not a proof for all byte strings."
 )
